@@ -198,6 +198,48 @@ def check_hashmask_field(rep, mod):
                         'the context contained before' % (fn, ' / '.join(d.ops)), key='R-HASHMASK-FIELD|%s|%s' % (fn, g.line or 0), sample='%s: bucket index & state->hash_mask' % fn)
 
 
+def check_hist_after_space(rep):
+    """the asm bodies only mask distances; they rely on the first position after a history reset being emitted as a literal.  has_hist = IGZIP_HIST records that this has happened"""
+    import provenance
+    from provenance import base_tag as base_tag_
+    R = rep.rule('R-HIST-AFTER-SPACE', 'asm level-0 body kernels (isal_deflate_body_0x): every path from the store has_hist = IGZIP_HIST to the return passes a store into the output '
+                 '(token) buffer: the flag is set on the has-space side of the output check, never on a path that gives up before the first byte was emitted - otherwise the '
+                 'next call skips the history reset, looks the first position up and masks distance 0 to 2^w', floor=3, unit='IGZIP_HIST stores')
+    res, _ = provenance.analyse('default')
+    off = c19.field_offsets('struct isal_zstream', ['internal_state.has_hist'])['internal_state.has_hist']
+    K, drop = mirror.c_values('default', ['igzip_lib.h'], [('HIST', 'IGZIP_HIST')], 'c17_hist2')
+    if drop:
+        raise AnalysisBroken('IGZIP_HIST not found')
+    for sym, info in sorted(res.items()):
+        if not re.match(r'^isal_deflate_body_0\d$', sym):
+            continue
+        u, f = info['unit'], info['func']
+        n = 0
+        for a in info['accesses']:
+            i = a.insn
+            if not (a.kind == 'store' and a.addr[0] == 'P' and a.addr[1] == 'STREAM' and a.addr[2] == (off, 0) and len(i.ops) > 1 and re.match(r'^(0x[0-9a-f]+|\d+)$', i.ops[1]) and int(i.ops[1], 0) == K['HIST']):
+                continue
+            n += 1
+            R.instance()
+            emit = {x.insn.addr for x in info['accesses'] if x.kind in ('store', 'rmw') and x.addr[0] == 'P' and base_tag_(x.addr) == 'OUT'}
+            if not emit:
+                raise AnalysisBroken('%s: no store into the output buffer recognised' % sym)
+            seen, work, hit = set(), list(u.succ(f, i.addr)), None
+            while work and hit is None:
+                x = work.pop()
+                if x in seen or x in emit:
+                    continue
+                seen.add(x)
+                if u.insns[x].mn == 'ret':
+                    hit = u.insns[x]
+                    break
+                work += u.succ(f, x)
+            R.check(hit is None, '%s: %s' % (u.name, u.where(i, f)), '%s sets has_hist = IGZIP_HIST here and can then return without having stored anything into the output buffer (an exit taken after the flag '
+                    'was set): the next call neither resets the history nor treats its first byte as a literal' % sym, key='R-HIST-AFTER-SPACE|%s' % sym, sample='%s: the flag is set behind the output check' % sym)
+        if n == 0:
+            raise AnalysisBroken('%s: no store of IGZIP_HIST to has_hist found' % sym)
+
+
 def check_mask_range(rep, config):
     R = rep.rule('R-DISTMASK-RANGE[%s]' % config, 'interval analysis of set_dist_mask over every hist_bits: afterwards hist_bits in [1,15] and dist_mask <= min(2^15, IGZIP_HIST_SIZE) - 1; _zlib_header_in_buffer advertises CINFO >= hist_bits - 8',
                  floor=1, unit='functions')
@@ -472,6 +514,7 @@ def main(tier):
     rep.attempt(check_distguard_c, rep, mod)
     rep.attempt(check_masked_nohist, rep, mod)
     rep.attempt(check_hashmask_field, rep, mod)
+    rep.attempt(check_hist_after_space, rep)
     for c in CONFIGS:
         check_mask_range(rep, c)
     rep.attempt(check_dict, rep, mod, S)
